@@ -207,7 +207,7 @@ func (config ConfigDistribution) GetParametersAsVector(t ScalarType) (Vector, bo
 }
 
 func (config ConfigDistribution) GetParametersAsMatrix(t ScalarType, n, m int) (Matrix, bool) {
-  if v, ok := config.getFloats(config.Parameters); !ok {
+  if v, ok := config.getFloats(config.Parameters); !ok || n < 0 || m < 0 || len(v) != n*m {
     return nil, false
   } else {
     return AsDenseMatrix(t, NewDenseFloat64Matrix(v, n, m)), true
@@ -295,7 +295,7 @@ func (config ConfigDistribution) GetNamedParametersAsVector(name string, t Scala
 }
 
 func (config ConfigDistribution) GetNamedParametersAsMatrix(name string, t ScalarType, n, m int) (Matrix, bool) {
-  if v, ok := config.GetNamedParametersAsFloats(name); !ok {
+  if v, ok := config.GetNamedParametersAsFloats(name); !ok || n < 0 || m < 0 || len(v) != n*m {
     return nil, false
   } else {
     return AsDenseMatrix(t, NewDenseFloat64Matrix(v, n, m)), true
